@@ -1396,6 +1396,8 @@ def make_builtins(I: Interp):
             return isinstance(x, SymObj) and x.cls.is_subclass(t)
         name = t.origin if isinstance(t, Ext) else getattr(t, "__name__", str(t))
         name = name.split(".")[-1]
+        if name.startswith("b_"):
+            name = name[2:]          # the interpreter's own int/float/bool/str/list/... builtins
         if name == "ndarray":
             return isinstance(x, Tensor)
         if name == "int":
@@ -1551,9 +1553,13 @@ def make_builtins(I: Interp):
         if isinstance(x, SymObj):
             return x.cls
         if isinstance(x, Sym):
-            return bool if x.is_bool else int if x.is_int else float
+            return B["bool"] if x.is_bool else B["int"] if x.is_int else B["float"]
         if isinstance(x, Tensor):
             return Ext("numpy.ndarray")
+        for py, nm in ((bool, "bool"), (int, "int"), (float, "float"), (str, "str"), (list, "list"),
+                       (tuple, "tuple"), (dict, "dict")):
+            if type(x) is py:
+                return B[nm]
         return type(x)
 
     def b_divmod(a, b):
